@@ -361,23 +361,33 @@ def shadowing(ctx):
 
 
 def folded_length_source(ctx):
-    """Pinned witness of the open finding K12: the fields folded in from an anonymous structure member are fields
-    parsed before the array, a length may name them."""
+    """The fields folded in from an anonymous structure (or union) member are fields parsed before the array: a length
+    may name them, also when a constant of the same name exists, in every dimension, in both readers (this was the
+    open finding K12 until repair 90)."""
     for compiled in (True, False):
         for text, data, want in [
             ("struct T { struct { uint8 n; }; uint8 a[n]; uint8 t; };", bytes([2, 9, 8, 7]), ([9, 8], 7)),
             ("struct T { struct { uint8 k; uint8 n; }; uint8 a[n + 1]; uint8 t; };", bytes([5, 1, 9, 8, 7]), ([9, 8], 7)),
+            ("#define n 3\nstruct T { struct { uint8 n; }; uint8 a[n]; uint8 t; };", bytes([1, 9, 8, 7]), ([9], 8)),
+            ("#define n 3\nstruct T { struct { uint8 n; }; uint8 a[n]; uint8 t; };", bytes([0, 9, 8, 7]), ([], 9)),
+            ("struct T { uint8 h; union { uint8 n; uint16 w; }; uint8 a[n]; uint8 t; };", bytes([5, 2, 0, 9, 8, 7]), ([9, 8], 7)),
+            ("struct T { struct { uint8 r; struct { uint8 n; }; }; uint16 a[r][n]; uint8 t; };",
+             bytes([1, 2, 9, 0, 8, 0, 7]), ([[9, 8]], 7)),
+            ("struct T { struct { uint8 n; }; uint8 x; struct { uint8 m; }; uint8 a[n * m]; uint8 t; };",
+             bytes([2, 5, 1, 9, 8, 7]), ([9, 8], 7)),
         ]:
             ctx.evaluation(("folded-length", text, compiled))
             ctx.cell("folded-length-source")
             try:
                 cs = lib.load(text, compiled=compiled)
                 o = cs.T(data)
-                got = ([int(x) for x in o.a], int(o.t))
+                got = ([[int(y) for y in x] if isinstance(x, list) else int(x) for x in o.a], int(o.t))
+                if cs.T(o.dumps()) != o:
+                    got = ("round trip differs", got)
             except Exception as e:  # noqa: BLE001
                 got = lib.exc_sig(e)
             if got != want:
-                ctx.violation("folded-length", "K12:length-expression-cannot-see-fields-of-a-preceding-anonymous-member",
+                ctx.violation("folded-length", "length-expression-cannot-see-fields-of-a-preceding-anonymous-member",
                               {"text": text, "data": data.hex(), "got": repr(got), "want": repr(want), "compiled": compiled,
                                "workload": "folded-length"})
             else:
